@@ -5,6 +5,7 @@ From Coq Require Import String Ascii.
 From Coq Require Import List Arith Lia Bool.
 Require Import TT.Model.Str TT.Proofs.StrFacts TT.Model.TypeParse TT.Spec.TsType TT.Proofs.TsTypeProofs.
 Require Import TT.Model.Render TT.Proofs.RenderProofs TT.Proofs.TypeParseProofs.
+Require Import TT.Model.C05Parse TT.Proofs.C05ParseProofs.
 Require Import TT.Model.C05Emit TT.Spec.C05Spec TT.Spec.C05Known.
 Import ListNotations.
 Local Open Scope char_scope.
@@ -269,6 +270,47 @@ Proof.
         eapply Forall_impl; [|exact Hall]. intros x (_ & _ & Hs). exact Hs.
 Qed.
 
+(* ---------------- the domain predicate: no square brackets in names ---------------- *)
+Lemma idc_nb c : is_idc c = true -> nb c.
+Proof.
+  intros H. unfold nb.
+  destruct c as [b0 b1 b2 b3 b4 b5 b6 b7];
+    destruct b0, b1, b2, b3, b4, b5, b6, b7; (split; reflexivity) || (vm_compute in H; discriminate H).
+Qed.
+Lemma ident_b_nb n : ident_b n = true -> Forall nb n.
+Proof. unfold ident_b. intros H. apply andb_true_iff in H as [_ H]. rewrite forallb_forall in H.
+  apply Forall_forall. intros c Hc. apply idc_nb. auto. Qed.
+Lemma nb_L (s : string) : forallb is_idc (L s) = true -> Forall nb (L s).
+Proof. intros H. rewrite forallb_forall in H. apply Forall_forall. intros c Hc. apply idc_nb. auto. Qed.
+
+Lemma dom_m_nobr m : forall t, dom_m m t = true -> nobr t.
+Proof.
+  induction t as [n args IH|t IH|l IH] using rty_ind'; intros Hd.
+  - cbn [dom_m] in Hd. destruct (lookup m (tts (RPath n args))) as [target|].
+    + apply andb_true_iff in Hd as [Hd Hargs]. apply andb_true_iff in Hd as [Hd _].
+      apply andb_true_iff in Hd as [Hd _]. apply andb_true_iff in Hd as [Hd _].
+      cbn [nobr]. split; [apply ident_b_nb; exact Hd|]. apply nobr_list. apply Forall_forall. intros a Ha.
+      rewrite forallb_forall in Hargs. specialize (Hargs a Ha). destruct a as [x [|? ?]| |]; try discriminate.
+      cbn [nobr]. split; [apply ident_b_nb; exact Hargs | exact I].
+    + destruct args as [|a [|b [|c rest]]]; [| | |discriminate].
+      * apply andb_true_iff in Hd as [Hd _]. apply andb_true_iff in Hd as [Hd _].
+        cbn [nobr]. split; [apply ident_b_nb; exact Hd | exact I].
+      * inversion IH as [|? ? IHa _]; subst. apply andb_true_iff in Hd as [Hn Hda].
+        cbn [nobr]. split; [|split; [apply IHa; exact Hda | exact I]].
+        repeat (apply orb_true_iff in Hn as [Hn|Hn]); apply is_name_eq in Hn; subst n; apply nb_L; reflexivity.
+      * inversion IH as [|? ? IHa IH']; subst. inversion IH' as [|? ? IHb _]; subst.
+        apply andb_true_iff in Hd as [Hd Hdb]. apply andb_true_iff in Hd as [Hn Hda].
+        cbn [nobr]. split; [|split; [apply IHa; exact Hda | split; [apply IHb; exact Hdb | exact I]]].
+        apply orb_true_iff in Hn as [Hn|Hn].
+        -- apply andb_true_iff in Hn as [Hn _]. apply orb_true_iff in Hn as [Hn|Hn];
+             apply is_name_eq in Hn; subst n; apply nb_L; reflexivity.
+        -- apply is_name_eq in Hn; subst n; apply nb_L; reflexivity.
+  - cbn [dom_m] in Hd. cbn [nobr]. auto.
+  - cbn [dom_m] in Hd. rewrite forallb_forall in Hd.
+    change (nobr (RTuple l)) with ((fix go l := match l with [] => True | x :: l' => nobr x /\ go l' end) l).
+    apply nobr_list. apply Forall_forall. intros x Hx. rewrite Forall_forall in IH. apply IH; auto.
+Qed.
+
 (* ---------------- fuel: the length of the printed type bounds its height ---------------- *)
 Lemma join_len_ge sep (l : list str) x : In x l -> List.length x <= List.length (join sep l).
 Proof. induction l as [|y l IH]; intros Hin; [destruct Hin|]. destruct l as [|z l].
@@ -302,53 +344,50 @@ Proof.
       lia.
 Qed.
 
-(* ---------------- string -> structure, stated on the entry point ---------------- *)
-Theorem parse_faithful t : wf t -> kf_result_ok_has_comma t = false -> kf_tuple_elem_has_comma t = false ->
-  parse_type_structure (tts t) = Some (sem t).
-Proof. intros Hw H1 H2. unfold parse_type_structure. apply parse_tts_faithful; auto.
+(* ---------------- string -> structure, stated on the entry point (repaired parser) ---------------- *)
+Theorem parse_faithful t : wf t -> nobr t -> parse_type_structure2 (tts t) = Some (sem t).
+Proof. intros Hw Hb. unfold parse_type_structure2. apply parse2_tts_faithful; auto.
   pose proof (height_le_len t Hw). lia. Qed.
 
 (* ---------------- C05 / C18 at the sites whose text is an unqualified TypeScript type ---------------- *)
 Definition plain_site (s : site) (md : mode) : bool := site_is_type s md && negb (site_qualified s).
 
-Theorem sound_plain m t : mapping_ok m -> dom_m m t = true ->
-  kf_result_ok_has_comma t = false -> kf_tuple_elem_has_comma t = false -> kf_union_under_seq (sem t) = false ->
+Theorem sound_plain m t : mapping_ok m -> dom_m m t = true -> kf_union_under_seq (sem t) = false ->
   forall s md, plain_site s md = true ->
   exists text, emit_type s md m t = Some text /\ observe (site_is_type s md) text = Some (expected s m t).
 Proof.
-  intros Hm Hd H1 H2 H3 s md Hs.
-  destruct (dom_m_facts m Hm t Hd) as (Hw & Hok & Hsh).
-  exists (render_m m (sem t)). unfold emit_type, emit_str. rewrite (parse_faithful t Hw H1 H2). cbn [option_map].
+  intros Hm Hd H3 s md Hs.
+  destruct (dom_m_facts m Hm t Hd) as (Hw & Hok & Hsh). pose proof (dom_m_nobr m t Hd) as Hb.
+  exists (render_m m (sem t)). unfold emit_type, emit_str. rewrite (parse_faithful t Hw Hb). cbn [option_map].
   assert (Hden : ts_parse_str (render_m m (sem t)) = Some (rshape m t)).
   { rewrite render_m_msubst, Hsh. apply render_denotes; [exact Hok | rewrite kf_union_msubst; exact H3]. }
   destruct s, md; try discriminate Hs; cbn [emit_ts site_is_type observe expected site_qualified]; auto.
 Qed.
 
 (* frame at the level of the whole pipeline *)
-Theorem frame_type s md m t : wf t -> kf_result_ok_has_comma t = false -> kf_tuple_elem_has_comma t = false ->
+Theorem frame_type s md m t : wf t -> nobr t ->
   unmapped m (sem t) -> emit_type s md m t = emit_type s md [] t.
-Proof. intros Hw H1 H2 Hu. unfold emit_type, emit_str. rewrite (parse_faithful t Hw H1 H2). cbn [option_map].
+Proof. intros Hw Hb Hu. unfold emit_type, emit_str. rewrite (parse_faithful t Hw Hb). cbn [option_map].
   rewrite emit_frame by exact Hu. reflexivity. Qed.
 
 (* frame without any side condition on the parse: whatever structure the parser returns *)
 Theorem frame_str s md m opt ty :
-  (forall ts, parse_type_structure ty = Some ts -> unmapped m ts) ->
+  (forall ts, parse_type_structure2 ty = Some ts -> unmapped m ts) ->
   emit_str s md m opt ty = emit_str s md [] opt ty.
-Proof. intros H. unfold emit_str. destruct (parse_type_structure ty) as [ts|]; [|reflexivity].
+Proof. intros H. unfold emit_str. destruct (parse_type_structure2 ty) as [ts|]; [|reflexivity].
   cbn [option_map]. rewrite emit_frame by (apply H; reflexivity). reflexivity. Qed.
 
 (* ---------------- compositionality ---------------- *)
 Definition good (m : mapping) (t : rty) : Prop :=
-  dom_m m t = true /\ kf_result_ok_has_comma t = false /\ kf_tuple_elem_has_comma t = false /\
-  kf_union_under_seq (sem t) = false.
+  dom_m m t = true /\ kf_union_under_seq (sem t) = false.
 
 Definition reads (s : site) (md : mode) (m : mapping) (t : rty) : option tsty :=
   match emit_type s md m t with Some text => observe (site_is_type s md) text | None => None end.
 
 Lemma reads_sound m t s md : mapping_ok m -> good m t -> plain_site s md = true ->
   reads s md m t = Some (expected s m t).
-Proof. intros Hm (Hd & H1 & H2 & H3) Hs. unfold reads.
-  destruct (sound_plain m t Hm Hd H1 H2 H3 s md Hs) as (text & He & Ho). rewrite He. exact Ho. Qed.
+Proof. intros Hm (Hd & H3) Hs. unfold reads.
+  destruct (sound_plain m t Hm Hd H3 s md Hs) as (text & He & Ho). rewrite He. exact Ho. Qed.
 
 Lemma plain_expected s md m t : plain_site s md = true -> expected s m t = rshape m t.
 Proof. unfold plain_site, expected. intros H. apply andb_true_iff in H as [_ H]. apply negb_true_iff in H.
